@@ -5,7 +5,9 @@ import (
 	"fmt"
 	"os"
 	"path/filepath"
+	"runtime"
 	"sort"
+	"sync"
 	"testing/synctest"
 	"time"
 
@@ -302,14 +304,59 @@ func runC15(c *kernel.Ctx) {
 		// end of this life: clean close or crash; the next life continues on what is on disk
 		next := filepath.Join(c.Scratch, fmt.Sprintf("live%d", cy+1))
 		if t.Chance(1, 2) {
-			st.Close()
-			c.Logf("clean close after %d stores", len(acked))
+			if t.Chance(1, 2) {
+				// a clean shutdown while a publisher is still storing: whatever Store acknowledged (returned
+				// nil for) by the time the store is closed must be there afterwards; a call that is refused,
+				// hangs or dies inside the closing store acknowledged nothing. How the two goroutines
+				// interleave is up to the Go scheduler (the store has no seam), so nothing about it is logged.
+				var mu sync.Mutex
+				var during []*c15Msg
+				base := seq
+				nmax := t.Range(10, 40)
+				seq += nmax
+				go func() {
+					for i := 0; i < nmax; i++ {
+						n := base + i + 1
+						ch := []string{"a", "b"}[n%2]
+						payload := append(bytes.Repeat([]byte{byte('A' + n%26)}, 40), []byte(fmt.Sprintf("#%d", n))...)
+						m := message.New(message.Ssid(model.Ssid(77, []string{ch})), []byte(ch+"/"), payload)
+						m.TTL = 86400
+						rec := &c15Msg{id: append(message.ID(nil), m.ID...), ch: ch + "/", payload: payload, ttl: m.TTL, seq: n}
+						ok := func() (ok bool) {
+							defer func() {
+								if recover() != nil {
+									ok = false
+								}
+							}()
+							return st.Store(m) == nil
+						}()
+						if ok {
+							mu.Lock()
+							during = append(during, rec)
+							mu.Unlock()
+						}
+					}
+				}()
+				if t.Chance(1, 2) {
+					runtime.Gosched()
+				}
+				st.Close()
+				synctest.Wait()
+				mu.Lock()
+				acked = append(acked, during...)
+				mu.Unlock()
+				c.Fault("clean-close-during-stores")
+				c.Logf("clean close while a publisher was storing")
+			} else {
+				st.Close()
+			}
+			c.Logf("clean close")
 			c.Fault("clean-close")
 			world.SparseCopyDir(live, next)
 		} else {
 			synctest.Wait()
 			world.SparseCopyDir(live, next) // crash: no Close before the copy
-			c.Logf("crash after %d stores", len(acked))
+			c.Logf("crash")
 			c.Fault("crash-restart")
 			st.Close() // release the dead life's resources (its directory is no longer used)
 		}
